@@ -543,7 +543,7 @@ def k_unique_id(E, tier):
     for i, p in enumerate(paths):
         cellv = p.cells.get("cell")
         if cellv is None:
-            rec.add("path %d: the call touches the process-wide counter" % i, {"verdict": "violated", "per_solver": {"structural": "no counter access"}, "time_s": 0})
+            rec.add("path %d: the call touches the process-wide counter (shape not recognised)" % i, {"verdict": "inconclusive", "per_solver": {"structural": "no counter access"}, "time_s": 0})
             continue
         r = E.decide(ctx, notmax + p.pc + ["(not (= %s (bvadd %s %s)))" % (cellv.term, C, bvlit(1, 64))], model_names=[C])
         rec.add("path %d: the counter cell holds c+1 after the call (strictly increasing, no wrap before 2^64 calls)" % i, r)
@@ -554,7 +554,7 @@ def k_unique_id(E, tier):
             r = E.decide(ctx, notmax + p.pc + ["(not (or (= {h} (bvadd {c} {one})) (= {h} {c})))".format(h=hv, c=C, one=bvlit(1, 64))], model_names=[C])
             rec.add("path %d: the identifier is formatted from this call's own counter value (c or c+1), so successive calls differ" % i, r)
         else:
-            rec.add("path %d: exactly one lower-hex formatted value" % i, {"verdict": "violated", "per_solver": {"structural": "events"}, "time_s": 0})
+            rec.add("path %d: exactly one lower-hex formatted value (shape not recognised)" % i, {"verdict": "inconclusive", "per_solver": {"structural": "events"}, "time_s": 0})
         # atomicity discipline
         names = [e.callee for e in p.events]
         acc = [j for j, n in enumerate(names) if n in ("guard-deref", "store", "atomic-rmw", "atomic-load", "atomic-store")]
@@ -713,6 +713,10 @@ def k_set_nth(E, tier):
         stores = [e for e in p.events if e.callee == "store"]
         good = len(gl) == 1 and len(gn) == 1 and len(gv) == 1 and len(im) == 1 and len(stores) == 1
         detail = []
+        if not good:
+            rec.add("path %d: set-nth has the shape get_list / index closure / index_mut / store (not recognised)" % i,
+                    {"verdict": "inconclusive", "per_solver": {"structural": "event counts"}, "time_s": 0})
+            continue
         if good:
             # the closure handed to get_map("n") captures a reference to the list local that is indexed afterwards
             clos = [x for x in gn[0].args if isinstance(x, sym.Agg) and "list" in x.fields]
@@ -818,8 +822,8 @@ def k_and_or(E, tier):
                 cond = ta if opname == "And" else "(not %s)" % ta
                 which = "b"
             else:
-                rec.add("%s path %d: result is Ok(Some(a)) or Ok(Some(b)) by identity" % (opname, i),
-                        {"verdict": "violated", "per_solver": {"structural": repr(ret)[:80]}, "time_s": 0})
+                rec.add("%s path %d: result is Ok(Some(a)) or Ok(Some(b)) by identity (shape not recognised)" % (opname, i),
+                        {"verdict": "inconclusive", "per_solver": {"structural": repr(ret)[:80]}, "time_s": 0})
                 continue
             r = E.decide(ctx, p.pc + ["(not %s)" % cond], model_names=[a.discriminant().term])
             rec.add("%s path %d: yields %s exactly when Sass prescribes it (a %s)" % (opname, i, which,
@@ -1080,8 +1084,8 @@ def k_lighten_darken(E, tier):
             acc = {e.callee.split("::")[-1]: e for e in p.events if e.callee.startswith("Hsla::") and e.callee != "Hsla::new"}
             amt = vals.get("amount")
             if len(new) != 1 or amt is None or not {"hue", "alpha"} <= set(acc):
-                rec.add("%s: one Hsla::new built from the colour's own channels" % f.name.split("::")[-1],
-                        {"verdict": "violated", "per_solver": {"structural": str(sorted(acc))}, "time_s": 0})
+                rec.add("%s: one Hsla::new built from the colour's own channels (shape not recognised)" % f.name.split("::")[-1],
+                        {"verdict": "inconclusive", "per_solver": {"structural": str(sorted(acc))}, "time_s": 0})
                 continue
             h, s_, l_, a_ = [x for x in new[0].args[:4]]
             moved_lum = "lum" in acc and isinstance(l_, sym.Scalar) and l_ is not acc["lum"].result
@@ -1136,7 +1140,7 @@ def k_fade(E, tier):
             col = vals.get("color")
             amt = vals.get("amount")
             if len(ga) != 1 or len(sa) != 1 or col is None or amt is None:
-                rec.add("%s: one get_alpha and one set_alpha" % f.name.split("::")[-1], {"verdict": "violated", "per_solver": {"structural": "events"}, "time_s": 0})
+                rec.add("%s: one get_alpha and one set_alpha (shape not recognised)" % f.name.split("::")[-1], {"verdict": "inconclusive", "per_solver": {"structural": "events"}, "time_s": 0})
                 continue
             up = "Add(" in f.source()
             kind = "fade-in/opacify" if up else "fade-out/transparentize"
@@ -1239,12 +1243,13 @@ def k_plus_minus_units(E, tier):
                 why = "no number when as_unitset gives None"
             else:
                 why = "unexpected shape: %s" % names
+            unknown = why.startswith("unexpected shape") or why.startswith("units are not compared first")
             rec.add("%s path %d: %s" % (opname, i, why),
-                    {"verdict": "holds" if ok else "violated", "per_solver": {"structural": "event identity"}, "time_s": 0})
+                    {"verdict": "holds" if ok else ("inconclusive" if unknown else "violated"), "per_solver": {"structural": "event identity"}, "time_s": 0})
         want = {"same-unit", "right-unitless", "left-unitless", "converted", "incompatible"}
         if kinds != want:
             rec.add("%s: all five cases are present (%s)" % (opname, sorted(kinds)),
-                    {"verdict": "violated" if paths else "inconclusive", "per_solver": {"structural": "path kinds"}, "time_s": 0})
+                    {"verdict": "inconclusive", "per_solver": {"structural": "path kinds"}, "time_s": 0})
     return rec
 
 
@@ -1305,7 +1310,532 @@ def k_numeric_cmp(E, tier):
                 ok = r["verdict"] == "holds"
             kinds.add("convert-left")
             why = "factor(b->a) < 1: a*factor(a->b) ? b"
-        rec.add("path %d: %s" % (i, why), {"verdict": "holds" if ok else "violated", "per_solver": {"structural": "event identity + branch condition"}, "time_s": 0})
+        rec.add("path %d: %s" % (i, why), {"verdict": "holds" if ok else ("inconclusive" if why.startswith("unexpected shape") else "violated"),
+                                         "per_solver": {"structural": "event identity + branch condition"}, "time_s": 0})
     if kinds != {"direct", "undefined", "convert-right", "convert-left"}:
-        rec.add("all four cases present (%s)" % sorted(kinds), {"verdict": "violated" if paths else "inconclusive", "per_solver": {}, "time_s": 0})
+        rec.add("all four cases present (%s)" % sorted(kinds), {"verdict": "inconclusive", "per_solver": {}, "time_s": 0})
+    return rec
+
+
+def _option_models(ctx):
+    def m_or(ex, st, c, a, d):
+        x, y = a[0], a[1]
+        if isinstance(x, sym.Agg):
+            return x if x.variant == "Some" else y
+        dx = ex.discriminant(x).term
+        s1 = st.fork(); s1.pc.append("(= %s %s)" % (dx, bvlit(1, 64)))
+        s0 = st.fork(); s0.pc.append("(= %s %s)" % (dx, bvlit(0, 64)))
+        return [(s1, x), (s0, y)]
+
+    def m_unwrap_or(ex, st, c, a, d):
+        x, dflt = a[0], a[1]
+        if isinstance(x, sym.Agg):
+            return x.fields["0"] if x.variant == "Some" else dflt
+        dx = ex.discriminant(x).term
+        s1 = st.fork(); s1.pc.append("(= %s %s)" % (dx, bvlit(1, 64)))
+        s0 = st.fork(); s0.pc.append("(= %s %s)" % (dx, bvlit(0, 64)))
+        return [(s1, x.child("Some.0", d or "?")), (s0, dflt)]
+
+    return [(r"^Option::<ListSeparator>::or$", m_or), (r"^Option::<ListSeparator>::unwrap_or$", m_unwrap_or)]
+
+
+def k_append_join(E, tier):
+    """C28: append/join take the separator from the explicit argument, else from the first list that has one,
+    else space; brackets come from the first list (join: unless `$bracketed` is given)."""
+    E.load_enum("css/value.rs", "Value", "css::value::Value")
+    E.load_enum("value/list_separator.rs", "ListSeparator")
+    rec = None
+    for fname, nlists in (("append", 1), ("join", 2)):
+        contains = ['const "val"', "Option::<ListSeparator>::or"] if fname == "append" else ['const "list2"', "Option::<ListSeparator>::or"]
+        f = E.find(name_re=r"^list::create_module::\{closure#\d+\}$", contains=contains)
+        if rec is None:
+            rec = Rec("list.append / list.join closures", f, E)
+        ctx = E.ctx()
+        vals = {}
+        lists = []
+
+        def m_get_list(ex, st, c, a, d, lists=lists, ctx=ctx):
+            o = sym.Opaque(d or "tuple", "get_list#%d" % len(lists), ctx)
+            lists.append((o, a[0]))
+            st.events.append(sym.Event("get_list", a, o, len(st.pc)))
+            return o
+
+        models = [(r"^get_list$", m_get_list)] + _option_models(ctx) + _color_fn_models(E, ctx, vals)
+        ex = sym.Executor(ctx, models=models, inline=[r"^css::value::Value::is_true$"], feasibility=E.feasibility(ctx))
+        paths = [p for p in ex.run(f, [sym.Opaque("closure", "self", ctx), sym.Opaque("&ResolvedArgs", "s", ctx)]) if p.status == "return"]
+        rec.paths += len(paths)
+        okp = [p for p in paths if isinstance(p.ret, sym.Agg) and p.ret.variant == "Ok"]
+        origins = set()
+        for i, p in enumerate(okp):
+            lst = p.ret.fields["0"]
+            gl = [e.result for e in p.events if e.callee == "get_list"]
+            if not (isinstance(lst, sym.Agg) and lst.variant == "List") or len(gl) != nlists or "separator" not in vals:
+                rec.add("%s path %d: result is a list built from the get_list() parts (shape not recognised)" % (fname, i),
+                        {"verdict": "inconclusive", "per_solver": {"structural": repr(lst)[:60]}, "time_s": 0})
+                continue
+            sepv = lst.fields["1"]
+            sepv = sepv.fields.get("0") if isinstance(sepv, sym.Agg) and sepv.variant == "Some" else None
+            sources = [vals["separator"]] + [g.children.get("1") for g in gl]
+            if any(s_ is None for s_ in sources):
+                rec.add("%s path %d: every list's separator is read" % (fname, i), {"verdict": "violated", "per_solver": {"structural": "missing read"}, "time_s": 0})
+                continue
+            k = None
+            for j, src in enumerate(sources):
+                if isinstance(sepv, sym.Opaque) and isinstance(src, sym.Opaque) and sepv is src.children.get("Some.0"):
+                    k = j
+            if k is None and isinstance(sepv, sym.Agg) and sepv.variant == "Space":
+                k = len(sources)
+            if k is None:
+                rec.add("%s path %d: the separator is the explicit one, a list's own, or space (shape not recognised)" % (fname, i),
+                        {"verdict": "inconclusive", "per_solver": {"structural": repr(sepv)[:60]}, "time_s": 0})
+                continue
+            origins.add(k)
+            conds = ["(= %s %s)" % (ex.discriminant(sources[j]).term, bvlit(0, 64)) for j in range(k)]
+            if k < len(sources):
+                conds.append("(= %s %s)" % (ex.discriminant(sources[k]).term, bvlit(1, 64)))
+            r = E.decide(ctx, p.pc + ["(not (and true %s))" % " ".join(conds)])
+            names = ["explicit $separator"] + ["list%d" % (j + 1) for j in range(nlists)] + ["space (default)"]
+            rec.add("%s path %d: separator taken from %s only when every earlier source has none" % (fname, i, names[k]), r)
+            # elements and brackets
+            first = gl[0]
+            same_list = lst.fields["0"] is first.children.get("0")
+            bra = lst.fields["2"]
+            bra_ok = bra is first.children.get("2") or (fname == "join" and isinstance(bra, sym.Scalar))
+            rec.add("%s path %d: elements start with the first list's and brackets follow the first list (or $bracketed)" % (fname, i),
+                    {"verdict": "holds" if (same_list and bra_ok) else "violated", "per_solver": {"structural": "identity"}, "time_s": 0})
+            if fname == "append":
+                pushes = [e for e in p.events if e.callee.endswith("::push")]
+                okpush = len(pushes) == 1 and pushes[0].rargs[0] is first.children.get("0") and pushes[0].rargs[1] is vals.get("val")
+                rec.add("append path %d: exactly $val is pushed onto the list" % i,
+                        {"verdict": "holds" if okpush else "violated", "per_solver": {"structural": "identity"}, "time_s": 0})
+            else:
+                apps = [e for e in p.events if e.callee.endswith("::append")]
+                okapp = (len(apps) == 1 and apps[0].rargs[0] is gl[0].children.get("0") and apps[0].rargs[1] is gl[1].children.get("0"))
+                rec.add("join path %d: list2's elements are appended to list1's" % i,
+                        {"verdict": "holds" if okapp else "violated", "per_solver": {"structural": "identity"}, "time_s": 0})
+        if origins != set(range(nlists + 2)):
+            rec.add("%s: every separator source is used on some path (%s)" % (fname, sorted(origins)),
+                    {"verdict": "violated" if okp else "inconclusive", "per_solver": {}, "time_s": 0})
+    return rec
+
+
+def k_list_separator(E, tier):
+    """C28: list.separator: comma for comma lists, argument lists and non-empty maps; slash for slash lists; space otherwise.
+    list.is-bracketed: true exactly for bracketed lists."""
+    cssv = E.load_enum("css/value.rs", "Value", "css::value::Value")
+    seps = E.load_enum("value/list_separator.rs", "ListSeparator")
+    f = E.find(name_re=r"^list::create_module::\{closure#\d+\}$", contains=['const "comma"', 'const "slash"', 'const "space"'])
+    rec = Rec("list.separator / list.is-bracketed closures", f, E)
+    ctx = E.ctx()
+    vals = {}
+
+    def m_is_empty(ex, st, c, a, d):
+        o = ctx.fresh_scalar("bool", "map_is_empty")
+        st.events.append(sym.Event("is_empty", a, o, len(st.pc)))
+        return o
+
+    def m_into(ex, st, c, a, d):
+        st.events.append(sym.Event("into", a, None, len(st.pc)))
+        return sym.Opaque("css::value::Value", "str:" + (a[0].s if isinstance(a[0], sym.ConstStr) else "?"), ctx)
+
+    models = [(r"^OrderMap::<.*>::is_empty$", m_is_empty), (r"^<&str as std::convert::Into<css::value::Value>>::into$", m_into)] + _color_fn_models(E, ctx, vals)
+    ex = sym.Executor(ctx, models=models, feasibility=E.feasibility(ctx))
+    paths = [p for p in ex.run(f, [sym.Opaque("closure", "self", ctx), sym.Opaque("&ResolvedArgs", "s", ctx)]) if p.status == "return"]
+    rec.paths = len(paths)
+    v = vals.get("list")
+    seen = set()
+    for i, p in enumerate(paths):
+        if not (isinstance(p.ret, sym.Agg) and p.ret.variant == "Ok") or v is None:
+            continue
+        out = p.ret.fields["0"]
+        name = getattr(out, "name", "")
+        if not name.startswith("str:"):
+            rec.add("path %d: the result is one of the three constant names" % i, {"verdict": "violated", "per_solver": {"structural": name}, "time_s": 0})
+            continue
+        got = name[4:]
+        seen.add(got)
+        D = v.discriminant().term
+        is_list = "(= %s %s)" % (D, bvlit(cssv.index("List"), 64))
+        is_arg = "(= %s %s)" % (D, bvlit(cssv.index("ArgList"), 64))
+        is_map = "(= %s %s)" % (D, bvlit(cssv.index("Map"), 64))
+        opt = v.child("List.1", "std::option::Option<value::list_separator::ListSeparator>")
+        od = ex.discriminant(opt).term
+        sepv = opt.child("Some.0", "value::list_separator::ListSeparator")
+        sd = ex.discriminant(sepv).term
+        has = lambda nm: "(and %s (= %s %s) (= %s %s))" % (is_list, od, bvlit(1, 64), sd, bvlit(seps.index(nm), 64))
+        empties = [e.result.term for e in p.events if e.callee == "is_empty"]
+        nonempty_map = "(and %s %s)" % (is_map, "(not %s)" % empties[0] if empties else "true")
+        comma = "(or %s %s %s)" % (has("Comma"), is_arg, nonempty_map)
+        slash = has("Slash")
+        want = {"comma": comma, "slash": slash, "space": "(not (or %s %s))" % (comma, slash)}.get(got)
+        if want is None:
+            rec.add("path %d: unknown separator name %s" % (i, got), {"verdict": "violated", "per_solver": {}, "time_s": 0})
+            continue
+        r = E.decide(ctx, p.pc + ["(not %s)" % want], model_names=[D, od, sd])
+        rec.add("path %d: '%s' is reported exactly for the list kinds Sass prescribes" % (i, got), r)
+    if seen != {"comma", "slash", "space"}:
+        rec.add("all three separator names are produced (%s)" % sorted(seen), {"verdict": "violated" if paths else "inconclusive", "per_solver": {}, "time_s": 0})
+    # is-bracketed
+    g = E.find(name_re=r"^list::create_module::\{closure#\d+\}$", contains=["css::value::Value::True", "css::value::Value::False", 'const "list"'],
+               not_contains=['const "comma"', "index_of", 'const "value"', 'const "n"'])
+    ctx2 = E.ctx()
+    vals2 = {}
+    ex2 = sym.Executor(ctx2, models=_color_fn_models(E, ctx2, vals2), feasibility=E.feasibility(ctx2))
+    p2 = [p for p in ex2.run(g, [sym.Opaque("closure", "self", ctx2), sym.Opaque("&ResolvedArgs", "s", ctx2)]) if p.status == "return"]
+    rec.paths += len(p2)
+    v2 = vals2.get("list")
+    kinds = set()
+    for i, p in enumerate(p2):
+        if not (isinstance(p.ret, sym.Agg) and p.ret.variant == "Ok") or v2 is None:
+            continue
+        out = p.ret.fields["0"]
+        if not (isinstance(out, sym.Agg) and out.variant in ("True", "False")):
+            rec.add("is-bracketed path %d: result is a boolean" % i, {"verdict": "violated", "per_solver": {"structural": repr(out)[:50]}, "time_s": 0})
+            continue
+        kinds.add(out.variant)
+        D = v2.discriminant().term
+        br = v2.child("List.2", "bool")
+        cond = "(and (= %s %s) %s)" % (D, bvlit(cssv.index("List"), 64), br.term)
+        r = E.decide(ctx2, p.pc + [cond if out.variant == "False" else "(not %s)" % cond], model_names=[D])
+        rec.add("is-bracketed path %d: %s exactly %s bracketed lists" % (i, out.variant, "for" if out.variant == "True" else "for anything but"), r)
+    if kinds != {"True", "False"}:
+        rec.add("is-bracketed yields both answers", {"verdict": "violated" if p2 else "inconclusive", "per_solver": {}, "time_s": 0})
+    return rec
+
+
+def k_value_eq_symmetric(E, tier):
+    """C12: css::Value::eq is symmetric as a function of the two values' kinds and of the (symmetric)
+    comparisons of their parts: eq(a,b) and eq(b,a) are executed symbolically and must be the same
+    boolean function (this covers the cross arms, e.g. empty list == empty map both ways)."""
+    cssv = E.load_enum("css/value.rs", "Value", "css::value::Value")
+    f = E.find(name_re=r"^css::value::<impl at .*>::eq$", contains=["&css::value::Value, _2: &css::value::Value"])
+    rec = Rec("css::Value::eq (symmetry of the match arms)", f, E)
+    ctx = E.ctx()
+    a = sym.Opaque("css::value::Value", "a", ctx)
+    b_ = sym.Opaque("css::value::Value", "b", ctx)
+    memo = {}
+    seen_calls = set()
+
+    def m_bool_call(ex, st, c, args, d):
+        if (d or "").strip() != "bool":
+            return None
+        names = []
+        for x in args:
+            v = ex.resolve_ref(st, x)
+            n = 0
+            while isinstance(v, sym.Ref) and n < 4:
+                v = ex.resolve_ref(st, v)
+                n += 1
+            names.append(v.term if isinstance(v, sym.Scalar) else getattr(v, "name", repr(v)))
+        key = (re.sub(r"<&+", "<", re.sub(r"::<.*?>", "", c)), frozenset(names))
+        if key not in memo:
+            memo[key] = ctx.fresh_scalar("bool", "cmp_" + "_".join(sorted(names))[:40])
+        seen_calls.add(key[0])
+        return memo[key]
+
+    models = [(r".*", m_bool_call)]
+    funcs = []
+    for order in ((a, b_), (b_, a)):
+        ex = sym.Executor(ctx, models=models, feasibility=E.feasibility(ctx), max_paths=20000)
+        paths = [p for p in ex.run(f, [sym.Ref("val", order[0]), sym.Ref("val", order[1])]) if p.status == "return"]
+        rec.paths += len(paths)
+        terms = []
+        for p in paths:
+            if not (isinstance(p.ret, sym.Scalar) and p.ret.sort == "bool"):
+                raise sym.Unsupported("Value::eq path returns %r" % (p.ret,))
+            terms.append("(and true %s %s)" % (" ".join(p.pc), p.ret.term))
+        funcs.append("(or false %s)" % " ".join(terms))
+    da, db = a.discriminant().term, b_.discriminant().term
+    r = E.decide(ctx, ["(xor %s %s)" % (funcs[0], funcs[1])], model_names=[da, db])
+    o = rec.add("eq(a,b) == eq(b,a) for every pair of value kinds (%d x %d) and every outcome of the part comparisons" % (len(cssv), len(cssv)), r)
+    if r["verdict"] == "violated" and r.get("model"):
+        try:
+            o["kinds"] = [cssv[smt.bv_from_model(r["model"][da], True, 64)], cssv[smt.bv_from_model(r["model"][db], True, 64)]]
+        except Exception:
+            pass
+    # True/False/Null equal themselves, and differ from each other
+    ex = sym.Executor(ctx, models=models, feasibility=E.feasibility(ctx), max_paths=20000)
+    for v1 in ("True", "False", "Null"):
+        for v2 in ("True", "False", "Null"):
+            c = ["(= %s %s)" % (da, bvlit(cssv.index(v1), 64)), "(= %s %s)" % (db, bvlit(cssv.index(v2), 64))]
+            want = funcs[0] if v1 == v2 else "(not %s)" % funcs[0]
+            r = E.decide(ctx, c + ["(not %s)" % want])
+            if r["verdict"] != "holds":
+                rec.add("%s == %s is %s" % (v1.lower(), v2.lower(), str(v1 == v2).lower()), r)
+    rec.add("true/false/null equal themselves and nothing else among them", {"verdict": "holds", "per_solver": {"see": "individual failures are listed separately"}, "time_s": 0})
+    rec.notes.append("part comparisons are uninterpreted symmetric predicates keyed by the unordered pair of compared parts: %s" % sorted(seen_calls)[:12])
+    return rec
+
+
+def k_complement_grayscale(E, tier):
+    """C32: complement() is rotate_hue(colour, 180); grayscale() rebuilds the colour with saturation 0 and the
+    colour's own hue, lightness and alpha; adjust-hue() is rotate_hue(colour, $degrees)."""
+    rec = None
+    # complement
+    f = E.find(name_re=r"^hsl::register::\{closure#\d+\}$", contains=["Color::rotate_hue", "const 180_i32"])
+    rec = Rec("color complement / grayscale / adjust-hue closures", f, E)
+    ctx = E.ctx()
+    vals = {}
+
+    def m_into_f64(ex, st, c, a, d):
+        return sym.cast(a[0], "i32", "f64", "IntToFloat")
+
+    def m_rotate(ex, st, c, a, d):
+        o = sym.Opaque("Color", "rotated", ctx)
+        st.events.append(sym.Event("rotate_hue", [ex.resolve_ref(st, a[0]), a[1]], o, len(st.pc)))
+        return o
+
+    models = [(r"^<i32 as std::convert::Into<f64>>::into$", m_into_f64), (r"^Color::rotate_hue$", m_rotate)] + _color_fn_models(E, ctx, vals)
+    ex = sym.Executor(ctx, models=models, feasibility=E.feasibility(ctx))
+    paths = [p for p in ex.run(f, [sym.Opaque("closure", "self", ctx), sym.Opaque("&ResolvedArgs", "s", ctx)]) if p.status == "return"]
+    rec.paths += len(paths)
+    n = 0
+    for p in paths:
+        if not (isinstance(p.ret, sym.Agg) and p.ret.variant == "Ok"):
+            continue
+        n += 1
+        rot = [e for e in p.events if e.callee == "rotate_hue"]
+        if len(rot) != 1:
+            rec.add("complement: one rotate_hue call (shape not recognised)", {"verdict": "inconclusive", "per_solver": {}, "time_s": 0})
+            continue
+        same = rot[0].args[0] is vals.get("color")
+        r = E.decide(ctx, p.pc + ["(not (= %s %s))" % (rot[0].args[1].term, f64lit(180.0))])
+        rec.add("complement: the colour argument is rotated", {"verdict": "holds" if same else "violated", "per_solver": {"structural": "identity"}, "time_s": 0})
+        rec.add("complement: by exactly 180 degrees", r)
+    if n == 0:
+        rec.add("complement has an Ok path", {"verdict": "inconclusive", "per_solver": {}, "time_s": 0})
+    # adjust-hue
+    g = E.find(name_re=r"^hsl::expose::\{closure#\d+\}$", contains=["Color::rotate_hue", "check_hue"])
+    ctx2 = E.ctx()
+    vals2 = {}
+
+    def m_rotate2(ex, st, c, a, d):
+        o = sym.Opaque("Color", "rotated", ctx2)
+        st.events.append(sym.Event("rotate_hue", [ex.resolve_ref(st, a[0]), a[1]], o, len(st.pc)))
+        return o
+
+    def m_get_opt_map(ex, st, c, a, d):
+        checker = [x.name for x in a if isinstance(x, sym.FnItem)]
+        deg = vals2.setdefault("degrees", ctx2.fresh_scalar("f64", "arg.degrees"))
+        none = st.fork()
+        some = st.fork()
+        err = st.fork()
+        some.notes.append("checker:degrees:" + ",".join(checker))
+        return [
+            (none, sym.Agg(d, "Ok", {"0": sym.Agg("Option<f64>", "None", {}, 0)}, 0)),
+            (some, sym.Agg(d, "Ok", {"0": sym.Agg("Option<f64>", "Some", {"0": deg}, 1)}, 0)),
+            (err, sym.Agg(d, "Err", {"0": sym.Opaque("CallError", "e", ctx2)}, 1)),
+        ]
+
+    models2 = [(r"^Color::rotate_hue$", m_rotate2), (r"^ResolvedArgs::get_opt_map::<f64", m_get_opt_map)] + _color_fn_models(E, ctx2, vals2)
+    ex2 = sym.Executor(ctx2, models=models2, feasibility=E.feasibility(ctx2))
+    p2 = [p for p in ex2.run(g, [sym.Opaque("closure", "self", ctx2), sym.Opaque("&ResolvedArgs", "s", ctx2)]) if p.status == "return"]
+    rec.paths += len(p2)
+    kinds = set()
+    for p in p2:
+        if not (isinstance(p.ret, sym.Agg) and p.ret.variant == "Ok"):
+            continue
+        rot = [e for e in p.events if e.callee == "rotate_hue"]
+        if len(rot) == 1:
+            kinds.add("rotate")
+            ok = rot[0].args[0] is vals2.get("color") and rot[0].args[1] is vals2.get("degrees")
+            rec.add("adjust-hue: the colour argument is rotated by exactly $degrees", {"verdict": "holds" if ok else "violated", "per_solver": {"structural": "identity"}, "time_s": 0})
+        elif not rot:
+            kinds.add("keep")
+    if "rotate" not in kinds:
+        rec.add("adjust-hue has a rotating path", {"verdict": "inconclusive", "per_solver": {}, "time_s": 0})
+    # grayscale (both definitions: hsl::register and hsl::expose)
+    cands = [h for h in E.funcs if re.match(r"^hsl::(register|expose)::\{closure#\d+\}$", h.name)
+             and "Hsla::new" in h.source() and "Color::to_hsla" in h.source() and "const 0f64" in h.source()
+             and "check_amount" not in h.source()]
+    if len(cands) != 2:
+        raise sym.Unsupported("expected the two grayscale closures, found %d" % len(cands))
+    E.load_enum("css/value.rs", "Value", "css::value::Value")
+    cssv = E.enum_variants["css::value::Value"]
+    for h in cands:
+        ctx3 = E.ctx()
+        vals3 = {}
+        colour = sym.Opaque("Color", "the-colour", ctx3)
+
+        def m_get_value(ex, st, c, a, d, ctx3=ctx3, colour=colour, vals3=vals3):
+            ok = st.fork()
+            v = sym.Agg("css::value::Value", "Color", {"0": colour, "1": sym.Opaque("Option<String>", "src", ctx3)}, cssv.index("Color"))
+            vals3["color"] = colour
+            return [(ok, sym.Agg(d, "Ok", {"0": v}, 0))]
+
+        def m_is_rgb(ex, st, c, a, d, ctx3=ctx3):
+            return ctx3.fresh_scalar("bool", "is_rgb")
+
+        models3 = [(r"^ResolvedArgs::get::<css::value::Value>$", m_get_value), (r"^Color::is_rgb$", m_is_rgb)] + _color_fn_models(E, ctx3, vals3)
+        ex3 = sym.Executor(ctx3, models=models3, feasibility=E.feasibility(ctx3))
+        p3 = [p for p in ex3.run(h, [sym.Opaque("closure", "self", ctx3), sym.Opaque("&ResolvedArgs", "s", ctx3)]) if p.status == "return"]
+        rec.paths += len(p3)
+        got = False
+        for p in p3:
+            new = [e for e in p.events if e.callee == "Hsla::new"]
+            if len(new) != 1:
+                continue
+            got = True
+            acc = {e.callee.split("::")[-1]: e for e in p.events if e.callee.startswith("Hsla::") and e.callee != "Hsla::new"}
+            th = [e for e in p.events if e.callee == "to_hsla"]
+            hh, ss, ll, aa = new[0].args[:4]
+            ident = ({"hue", "lum", "alpha"} <= set(acc) and hh is acc["hue"].result and ll is acc["lum"].result and aa is acc["alpha"].result
+                     and len(th) >= 1 and th[0].args[0] is colour)
+            rec.add("%s grayscale: hue, lightness and alpha of the colour itself are passed on unchanged" % h.name.split("::")[1],
+                    {"verdict": "holds" if ident else "violated", "per_solver": {"structural": "identity"}, "time_s": 0})
+            if isinstance(ss, sym.Scalar):
+                r = E.decide(ctx3, p.pc + ["(not (= %s %s))" % (ss.term, F0)])
+                rec.add("%s grayscale: saturation is set to exactly 0" % h.name.split("::")[1], r)
+            else:
+                rec.add("%s grayscale: saturation is a number" % h.name.split("::")[1], {"verdict": "inconclusive", "per_solver": {}, "time_s": 0})
+        if not got:
+            rec.add("%s grayscale: a path building the colour exists" % h.name.split("::")[1], {"verdict": "inconclusive", "per_solver": {}, "time_s": 0})
+    return rec
+
+
+def k_str_index_length(E, tier):
+    """C26: string.index is 1 + the number of code points before the byte offset found by str::find of the
+    substring in the string (null when absent); string.length counts chars(); the case functions keep quotes()."""
+    f = E.find(name_re=r"string::create_module::\{closure#\d+\}$", contains=['const "substring"', "core::str::<impl str>::find"])
+    rec = Rec("string.index / string.length / case closures", f, E)
+    ctx = E.ctx()
+    vals = {}
+
+    def ev(name):
+        def h(ex, st, c, a, d):
+            o = ctx.fresh_value(d or "()", "ret." + name)
+            e = sym.Event(name, a, o, len(st.pc))
+            e.rargs = [ex.resolve_ref(st, x) for x in a]
+            st.events.append(e)
+            return o
+        return h
+
+    models = [(r"^core::str::<impl str>::find::<", ev("find")), (r"^Option::<usize>::map_or::<", ev("map_or")),
+              (r"^<String as Deref>::deref$", lambda ex, st, c, a, d: a[0])] + _color_fn_models(E, ctx, vals)
+    ex = sym.Executor(ctx, models=models, feasibility=E.feasibility(ctx))
+    paths = [p for p in ex.run(f, [sym.Opaque("closure", "self", ctx), sym.Opaque("&ResolvedArgs", "s", ctx)]) if p.status == "return"]
+    rec.paths += len(paths)
+    n = 0
+    for p in paths:
+        if not (isinstance(p.ret, sym.Agg) and p.ret.variant == "Ok"):
+            continue
+        n += 1
+        fd = [e for e in p.events if e.callee == "find"]
+        mo = [e for e in p.events if e.callee == "map_or"]
+        if len(fd) != 1 or len(mo) != 1:
+            rec.add("index: find(...).map_or(null, position) (shape not recognised)", {"verdict": "inconclusive", "per_solver": {}, "time_s": 0})
+            continue
+        hay, needle = fd[0].rargs[0], fd[0].rargs[1]
+        ok = hay is vals.get("string") and needle is vals.get("substring")
+        rec.add("index: the substring is searched in the string (not the other way round)", {"verdict": "holds" if ok else "violated", "per_solver": {"structural": "identity"}, "time_s": 0})
+        dflt = mo[0].args[1]
+        clo = mo[0].args[2]
+        ok2 = (mo[0].args[0] is fd[0].result and isinstance(dflt, sym.Agg) and dflt.variant == "Null" and isinstance(clo, sym.Agg))
+        cap = clo.fields.get("string") if isinstance(clo, sym.Agg) else None
+        cap_ok = isinstance(cap, sym.Ref)
+        rec.add("index: null when not found, otherwise the position closure over the same string", {"verdict": "holds" if (ok2 and cap_ok and p.ret.fields["0"] is mo[0].result) else "violated", "per_solver": {"structural": "identity"}, "time_s": 0})
+    if n == 0:
+        rec.add("index has an Ok path", {"verdict": "inconclusive", "per_solver": {}, "time_s": 0})
+    # the position closure: 1 + string[0..i].chars().count()
+    inner = [g for g in E.funcs if g.name == f.name + "::{closure#0}"]
+    if len(inner) != 1:
+        raise sym.Unsupported("position closure of string.index not found")
+    g = inner[0]
+    ctx2 = E.ctx()
+    i_ = ctx2.fresh_scalar(("bv", 64, False), "byte_offset")
+    cnt = ctx2.fresh_scalar(("bv", 64, False), "count")
+    env = sym.Opaque("closure-env", "env", ctx2)
+
+    def m_index(ex, st, c, a, d):
+        o = sym.Opaque("&str", "prefix", ctx2)
+        st.events.append(sym.Event("slice", a, o, len(st.pc)))
+        return o
+
+    def m_chars(ex, st, c, a, d):
+        o = sym.Opaque("Chars", "chars", ctx2)
+        st.events.append(sym.Event("chars", a, o, len(st.pc)))
+        return o
+
+    def m_count(ex, st, c, a, d):
+        st.events.append(sym.Event("count", a, cnt, len(st.pc)))
+        return cnt
+
+    def m_scalar(ex, st, c, a, d):
+        o = sym.Opaque("css::value::Value", "scalar", ctx2)
+        st.events.append(sym.Event("scalar", a, o, len(st.pc)))
+        return o
+
+    ex2 = sym.Executor(ctx2, models=[(r"^<String as Index<std::ops::Range<usize>>>::index$", m_index), (r"core::str::<impl str>::chars$", m_chars),
+                                     (r"<Chars<'_> as Iterator>::count$", m_count), (r"^css::value::Value::scalar::<usize>$", m_scalar)] + BASE_MODELS)
+    p2 = [p for p in ex2.run(g, [env, i_]) if p.status == "return"]
+    rec.paths += len(p2)
+    bound = ["(bvule %s %s)" % (cnt.term, bvlit(1 << 32, 64))]
+    panic_obligations(E, ctx2, rec, p2, assume=bound)
+    for p in p2:
+        sl = [e for e in p.events if e.callee == "slice"]
+        ch = [e for e in p.events if e.callee == "chars"]
+        sc = [e for e in p.events if e.callee == "scalar"]
+        if len(sl) != 1 or len(ch) != 1 or len(sc) != 1:
+            rec.add("index position: 1 + string[0..i].chars().count() (shape not recognised)", {"verdict": "inconclusive", "per_solver": {}, "time_s": 0})
+            continue
+        rng = sl[0].args[1]
+        ok = (isinstance(rng, sym.Agg) and ch[0].args[0] is sl[0].result)
+        r1 = E.decide(ctx2, bound + p.pc + ["(not (and (= %s %s) (= %s %s)))" % (rng.fields["start"].term, bvlit(0, 64), rng.fields["end"].term, i_.term)]) if ok else None
+        rec.add("index position: the code points counted are those of string[0..offset]", r1 if r1 else {"verdict": "violated", "per_solver": {"structural": "identity"}, "time_s": 0})
+        r2 = E.decide(ctx2, bound + p.pc + ["(not (= %s (bvadd %s %s)))" % (sc[0].args[0].term, cnt.term, bvlit(1, 64))], model_names=[cnt.term])
+        rec.add("index position: the result is that count + 1 (1-based)", r2)
+    # length
+    h = E.find(name_re=r"string::create_module::\{closure#\d+\}$", contains=["<Chars<'_> as Iterator>::count", "css::value::Value::scalar::<usize>", 'const "string"'],
+               not_contains=['const "substring"', 'const "start_at"', 'const "index"'])
+    ctx3 = E.ctx()
+    vals3 = {}
+    cnt3 = ctx3.fresh_scalar(("bv", 64, False), "count")
+
+    def m_chars3(ex, st, c, a, d):
+        o = sym.Opaque("Chars", "chars", ctx3)
+        e = sym.Event("chars", a, o, len(st.pc)); e.rargs = [ex.resolve_ref(st, x) for x in a]
+        st.events.append(e)
+        return o
+
+    def m_count3(ex, st, c, a, d):
+        st.events.append(sym.Event("count", a, cnt3, len(st.pc)))
+        return cnt3
+
+    def m_scalar3(ex, st, c, a, d):
+        o = sym.Opaque("css::value::Value", "scalar", ctx3)
+        st.events.append(sym.Event("scalar", a, o, len(st.pc)))
+        return o
+
+    ex3 = sym.Executor(ctx3, models=[(r"core::str::<impl str>::chars$", m_chars3), (r"<Chars<'_> as Iterator>::count$", m_count3),
+                                     (r"^css::value::Value::scalar::<usize>$", m_scalar3), (r"^<String as Deref>::deref$", lambda ex, st, c, a, d: a[0])]
+                        + _color_fn_models(E, ctx3, vals3), feasibility=E.feasibility(ctx3))
+    p3 = [p for p in ex3.run(h, [sym.Opaque("closure", "self", ctx3), sym.Opaque("&ResolvedArgs", "s", ctx3)]) if p.status == "return"]
+    rec.paths += len(p3)
+    for p in p3:
+        if not (isinstance(p.ret, sym.Agg) and p.ret.variant == "Ok"):
+            continue
+        ch = [e for e in p.events if e.callee == "chars"]
+        sc = [e for e in p.events if e.callee == "scalar"]
+        ok = len(ch) == 1 and len(sc) == 1 and ch[0].rargs[0] is vals3.get("string") and sc[0].args[0] is cnt3 and p.ret.fields["0"] is sc[0].result
+        rec.add("length: the number of chars() (code points) of the string argument", {"verdict": "holds" if ok else "violated", "per_solver": {"structural": "identity"}, "time_s": 0})
+    # case functions keep the quotes of their argument
+    cases = [c for c in E.funcs if re.match(r".*string::create_module::\{closure#\d+\}$", c.name)
+             and ("to_ascii_uppercase" in c.source() or "to_ascii_lowercase" in c.source())]
+    for cfn in cases:
+        ctx4 = E.ctx()
+        vals4 = {}
+        ex4 = sym.Executor(ctx4, models=_color_fn_models(E, ctx4, vals4), feasibility=E.feasibility(ctx4))
+        p4 = [p for p in ex4.run(cfn, [sym.Opaque("closure", "self", ctx4), sym.Opaque("&ResolvedArgs", "s", ctx4)]) if p.status == "return"]
+        rec.paths += len(p4)
+        for p in p4:
+            if not (isinstance(p.ret, sym.Agg) and p.ret.variant == "Ok"):
+                continue
+            news = [e for e in p.events if e.callee == "CssString::new"]
+            quotes = [e for e in p.events if e.callee == "CssString::quotes"]
+            ok = len(news) == 1 and len(quotes) == 1 and news[0].args[1] is quotes[0].result and quotes[0].rargs[0] is vals4.get("string")
+            which = "to-upper-case" if "to_ascii_uppercase" in cfn.source() else "to-lower-case"
+            rec.add("%s: ASCII-only case mapping, result built with the quotes() of the argument" % which,
+                    {"verdict": "holds" if ok else "violated", "per_solver": {"structural": "identity"}, "time_s": 0})
+    if len(cases) != 2:
+        rec.add("both ASCII case functions found (%d)" % len(cases), {"verdict": "inconclusive", "per_solver": {}, "time_s": 0})
     return rec
